@@ -345,6 +345,11 @@ class SpecLib:
             if not (isinstance(key, VInt) and key.py() == 0):
                 raise Unsupported("only element 0 of a split() result is modelled")
             return obj.fields["first"]
+        if isinstance(obj, (VObj, VRef)) and not (isinstance(obj, VObj) and obj.cls in REC_CLASSES):
+            # a user class: obj[key] is obj.__getitem__(key)
+            mod = ex.world.module_of_class(obj.cls)
+            if mod is not None and mod.mro_lookup(obj.cls, "__getitem__"):
+                return ex.call(ex.getattr(obj, "__getitem__"), [key], {})
         raise Unsupported("subscript of %r" % (obj,))
 
     def setitem(self, ex, obj, key, v):
@@ -431,6 +436,14 @@ class SpecLib:
             b = VBox("iter", (it.val, VInt(0)), "iter")
             b.live = it
             return b
+        if isinstance(it, (VObj, VRef)) and not (isinstance(it, VObj) and it.cls in REC_CLASSES):
+            # a user class: iteration goes through __iter__ (which must be under a modular contract that returns a list)
+            mod = ex.world.module_of_class(it.cls)
+            if mod is not None and mod.mro_lookup(it.cls, "__iter__"):
+                r = ex.call(ex.getattr(it, "__iter__"), [], {})
+                if isinstance(r, (VObj, VRef)):
+                    raise Unsupported("__iter__ of %s returned an object" % it.cls)
+                return self.make_iter(ex, r)
         s = self.seqval(it)
         if isinstance(s, VSeq):
             if s.pyval is not None and s.kind in ("str", "bytes"):
